@@ -214,6 +214,16 @@ Proof.
           (conj (binned_size_mismatch pred obs bg) (binned_empty_background pred obs))).
 Qed.
 Print Assumptions C07_likelihood_poisson_binned.
+(** the sum over the bins does not depend on how the histogram is cut into consecutive blocks of bins (of any sizes, so for histograms
+    of any length): the log-likelihood of the whole is the sum of the blocks' log-likelihoods, the likelihood the product *)
+Theorem C07_likelihood_poisson_binned_blocks p1 o1 b1 p2 o2 b2 :
+  length o1 = length p1 -> length b1 = length p1 -> length o2 = length p2 -> length b2 = length p2 ->
+  exists l1 l2,
+    log_likelihood_poisson_binned ROps p1 o1 b1 = Ok l1 /\ log_likelihood_poisson_binned ROps p2 o2 b2 = Ok l2 /\
+    log_likelihood_poisson_binned ROps (p1 ++ p2) (o1 ++ o2) (b1 ++ b2) = Ok (l1 + l2) /\
+    likelihood_poisson_binned ROps (p1 ++ p2) (o1 ++ o2) (b1 ++ b2) = Ok (exp l1 * exp l2).
+Proof. exact (binned_blocks p1 o1 b1 p2 o2 b2). Qed.
+Print Assumptions C07_likelihood_poisson_binned_blocks.
 (** a bin in which nothing was observed contributes -(s+b) to the log-likelihood and the factor e^-(s+b), however the mean is split
     into signal and background: a bin without predicted signal (s = 0) still contributes -b, a factor < 1 for b > 0 *)
 Theorem C07_likelihood_bin_without_events s b :
